@@ -19,7 +19,6 @@ import (
 	"k8s.io/apimachinery/pkg/types"
 	"k8s.io/client-go/kubernetes/scheme"
 	clienttesting "k8s.io/client-go/testing"
-	clocktesting "k8s.io/utils/clock/testing"
 	"sigs.k8s.io/controller-runtime/pkg/client"
 	"sigs.k8s.io/controller-runtime/pkg/client/apiutil"
 	"sigs.k8s.io/controller-runtime/pkg/client/fake"
@@ -104,7 +103,7 @@ func (c Call) String() string {
 type World struct {
 	Ctx     context.Context
 	Opts    *options.Options
-	Clock   *clocktesting.FakeClock
+	Clock   *AutoClock
 	Tracker clienttesting.ObjectTracker
 	Raw     client.WithWatch
 	Client  *IClient
@@ -162,7 +161,7 @@ func New(o Options) *World {
 	ctx := options.ToContext(context.Background(), w.Opts)
 	ctx = log.IntoContext(ctx, logr.Discard())
 	w.Ctx = ctx
-	w.Clock = clocktesting.NewFakeClock(Epoch)
+	w.Clock = NewAutoClock(Epoch)
 	w.Tracker = clienttesting.NewObjectTracker(scheme.Scheme, scheme.Codecs.UniversalDecoder())
 	b := fake.NewClientBuilder().WithScheme(scheme.Scheme).WithObjectTracker(w.Tracker).WithRESTMapper(restMapper).
 		WithStatusSubresource(&corev1.Node{}, &corev1.Pod{}, &v1.NodeClaim{}, &v1.NodePool{}, &v1alpha1.TestNodeClass{}).
@@ -220,8 +219,13 @@ func (w *World) Add(objs ...client.Object) {
 		if ct := o.GetCreationTimestamp(); ct.IsZero() {
 			o.SetCreationTimestamp(metaTime(w.Clock.Now()))
 		}
+		dt := o.GetDeletionTimestamp()
 		if err := w.Raw.Create(w.Ctx, o); err != nil {
 			panic(fmt.Sprintf("world.Add %T %s: %v", o, o.GetName(), err))
+		}
+		if dt != nil { // the fake strips deletionTimestamp on create
+			o.SetDeletionTimestamp(dt)
+			w.EnvUpdate(o)
 		}
 	}
 }
